@@ -7,7 +7,7 @@ from hypothesis import strategies as st
 from parso import cache as pcache
 from parso.python.pep8 import PEP8NormalizerConfig
 
-from ..common import crash_signature, digest, first_tree_diff, grammar, has_error, ref_split_lines, short, tree_sig
+from ..common import maybe_disturb, crash_signature, digest, first_tree_diff, grammar, has_error, ref_split_lines, short, tree_sig
 from ..engine import Outcome, Prop
 from ..gen import text as T
 
@@ -99,6 +99,7 @@ class C20(Prop):
         if cfg is not None:
             cfg = tuple(cfg)
         g = grammar(v)
+        maybe_disturb(g, code, v)      # process history: an unfinished earlier call must not matter
         try:
             m = g.parse(code)
         except RecursionError:
